@@ -221,7 +221,42 @@ func benign(paths []string) {
 						op = "-= 1"
 					}
 					add("benign: ++ as += 1", x.Pos(), x.End(), text(x.X)+" "+op)
+				case *ast.DeferStmt:
+					// defer x.M() -> defer func() { x.M() }(): only for calls whose arguments are plain names or selectors
+					simple := true
+					for _, a := range x.Call.Args {
+						switch a.(type) {
+						case *ast.Ident, *ast.SelectorExpr, *ast.BasicLit:
+						default:
+							simple = false
+						}
+					}
+					if _, isLit := x.Call.Fun.(*ast.FuncLit); !isLit && simple {
+						add("benign: deferred call wrapped in a closure", x.Pos(), x.End(), "defer func() { "+text(x.Call)+" }()")
+					}
+				case *ast.ForStmt, *ast.RangeStmt:
+					var body *ast.BlockStmt
+					if fs, isF := x.(*ast.ForStmt); isF {
+						body = fs.Body
+					} else {
+						body = x.(*ast.RangeStmt).Body
+					}
+					if nb := len(body.List); nb > 0 {
+						if iff, isIf := body.List[nb-1].(*ast.IfStmt); isIf && iff.Init == nil && iff.Else == nil && len(iff.Body.List) > 0 {
+							inner := string(src[off(iff.Body.Lbrace)+1 : off(iff.Body.Rbrace)])
+							add("benign: guard clause with continue", iff.Pos(), iff.End(), "if !("+text(iff.Cond)+") {\ncontinue\n}\n"+inner)
+						}
+					}
 				case *ast.BlockStmt:
+					for _, st := range x.List {
+						if iff, ok := st.(*ast.IfStmt); ok && iff.Init != nil {
+							add("benign: if-init hoisted", iff.Pos(), iff.Body.Lbrace, "{\n"+text(iff.Init)+"\nif "+text(iff.Cond)+" ")
+							// the closing brace of the new block goes after the whole statement
+							out[len(out)-1].End = off(iff.End())
+							out[len(out)-1].Old = string(src[off(iff.Pos()):off(iff.End())])
+							out[len(out)-1].New += string(src[off(iff.Body.Lbrace):off(iff.End())]) + "\n}"
+						}
+					}
 					for _, st := range x.List {
 						iff, ok := st.(*ast.IfStmt)
 						if !ok || iff.Init != nil {
